@@ -211,7 +211,9 @@ def monitor(c, run, K, stop_first=True):
         for j in range(n):
             a, b = run["K"][i * n + j], K[i][j]
             rel = 3e-7 if c["matrix"] == "cf" else 1e-12
-            if abs(a - b) > rel * max(abs(a), abs(b)) + 1e-300:
+            # an inner product with cancellation is only accurate relative to |x||z| = sqrt(K_ii K_jj), not to its own size
+            cs = math.sqrt(abs(K[i][i] * K[j][j])) if c["kernel"] == "lin" else 0.0
+            if abs(a - b) > rel * max(abs(a), abs(b)) + 16 * c["d"] * EPSM * cs + 1e-300:
                 return [(-1, "kernel-entry", "quadratic().entry(%d,%d)=%r differs from independently computed %r" % (i, j, a, b))]
             kd = max(kd, abs(a - b))
     lin0 = [1.0 if y else -1.0 for y in c["y"]]
